@@ -36,6 +36,9 @@ def cases(draw, closed_only, allow_verify):
         "verify": False,
         "corrupt": [],
         "jobs": draw(st.sampled_from([1, 1, 4])),
+        # hash-state cache attached to the destination / source store (as DVC's cache and remotes have)
+        "dst_state": draw(st.booleans()),
+        "src_state": draw(st.sampled_from([False, False, True])),
     }
     if allow_verify and draw(st.integers(0, 3)) == 0:
         case["verify"] = True
@@ -59,9 +62,17 @@ def execute(case, ctx, d, monitor_closure=True):  # noqa: C901, PLR0912, PLR0915
     fs = LocalFileSystem()
     src_root = os.path.join(d, "src")
     dst_root = os.path.join(d, "dst")
-    dst = ops.make_odb(case["dst_kind"], dst_root)
+    o.states = []
+    dkw, skw = {}, {}
+    if case.get("dst_state"):
+        o.states.append(ops.make_state(d, os.path.join(d, "dst-state")))
+        dkw["state"] = o.states[-1]
+    if case.get("src_state"):
+        o.states.append(ops.make_state(d, os.path.join(d, "src-state")))
+        skw["state"] = o.states[-1]
+    dst = ops.make_odb(case["dst_kind"], dst_root, **dkw)
     staging_mode = case["src_kind"] == "staging"
-    src = None if staging_mode else ops.make_odb(case["src_kind"], src_root)
+    src = None if staging_mode else ops.make_odb(case["src_kind"], src_root, **skw)
 
     # ---- materialise + reference manifests -------------------------------------------------
     tops = []  # per top-level object: dict(oid, files={oid: bytes}, isdir, path)
@@ -219,6 +230,8 @@ def execute(case, ctx, d, monitor_closure=True):  # noqa: C901, PLR0912, PLR0915
     o.index_final = set(index) if index is not None else None
     if index is not None:
         index.close()
+    for st_ in o.states:
+        st_.close()
     return o
 
 
@@ -248,4 +261,6 @@ def classes_of(case, o):
             break
     if o.dst_before:
         cl.append("dst-nonempty")
+    if case.get("dst_state"):
+        cl.append("dst-has-state")
     return cl
